@@ -249,7 +249,7 @@ Definition check_value (op : bytes) (args : list val) (out : val) : verdict :=
 Definition judge (op : bytes) (args : list val) (out : val) : verdict :=
   if bad_args out then JSkip
   (* the Local zone and its cache are clock / environment dependent: not in C15's stream *)
-  else if any_of op ["lz.at"; "lz.uat"; "lz.loc"; "lz.uloc"; "lz.sel"; "lz.usel"; "lz.rt"; "lz.urt"; "lz.env"; "lc.history"]%string
+  else if any_of op ["lz.at"; "lz.uat"; "lz.loc"; "lz.uloc"; "lz.sel"; "lz.usel"; "lz.rt"; "lz.urt"; "lz.env"; "lz.conv"; "lc.history"]%string
   then JSkip
   else match out with
   | VPanic =>
